@@ -172,8 +172,8 @@ def showState : Option (CellState Float) → String
 /-- `snapfields`: what the two readers reconstruct for every cell (x,y,z order) of a snapshot that
 stores the given combination of quantities -/
 def snapfields (c : Combo) (useD useP : Bool) (nx ny nz : Nat) (cubic : Bool) : String := Id.run do
-  let mp : Float := Float.ofBits CMacVerif.Gen.Units.protonMass.bits.toUInt64
-  let k : Float := Float.ofBits CMacVerif.Gen.Units.boltzmann.bits.toUInt64
+  let mp : Float := Float.ofBits (CMacVerif.Gen.Units.protonMass).bits.toUInt64
+  let k : Float := Float.ofBits (CMacVerif.Gen.Units.boltzmann).bits.toUInt64
   let pcf := k / mp
   let mut ps : String := ""
   let mut rs : String := ""
